@@ -1031,8 +1031,23 @@ func genC08(g *G, sc *Scenario, tier string) {
 	if jobType == "fullsync" {
 		points = []string{"pipeline.full.afterStart", "pipeline.full.afterBatch", "pipeline.full.beforeEnd", "pipeline.full.afterEnd"}
 	}
+	viaTrigger := g.P(0.2)
+	if viaTrigger {
+		// the runs of this scenario are started by the job's own cron trigger: pipeline, source and sink objects live
+		// across the runs (and across a sink dataset that is deleted and created again between two fullsync runs)
+		sc.Knobs["viaTrigger"] = 1
+		for i := range sc.Ops {
+			if sc.Ops[i].K == "addJob" {
+				sc.Ops[i].M["paused"] = false
+				sc.Ops[i].M["triggers"] = []any{map[string]any{"triggerType": "cron", "jobType": jobType, "schedule": "@every 10m"}}
+			}
+		}
+	}
 	rounds := g.Range(1, 4)
 	for rd := 0; rd < rounds; rd++ {
+		if viaTrigger && jobType == "fullsync" && rd > 0 && g.P(0.5) {
+			sc.Ops = append(sc.Ops, Op{K: "recreateSink", S: "job1"})
+		}
 		for w := g.Range(1, 4); w > 0; w-- {
 			ds := g.Pick(srcs)
 			c.Pool = pools[ds]
@@ -1045,7 +1060,7 @@ func genC08(g *G, sc *Scenario, tier string) {
 		x := g.r.Float64()
 		// the HTTP run operation lets a client run a job as either type, whatever its trigger says
 		runType := jobType
-		if g.P(0.25) {
+		if g.P(0.25) && !viaTrigger {
 			runType = g.Pick([]string{"incremental", "fullsync"})
 		}
 		pts := []string{"pipeline.incr.afterSink", "pipeline.incr.afterToken"}
@@ -1064,17 +1079,19 @@ func genC08(g *G, sc *Scenario, tier string) {
 				// a fullsync run killed between two pages, after it has turned earlier pages back to old versions
 				spec["killPoint"] = "pipeline.full.afterBatch"
 			}
-		case x < 0.6:
+		case x < 0.6 && !viaTrigger:
+			// (a crash state is opened as a second hub in the same process, and so is a restarted hub: the cron of
+			// the first would go on firing into a closed store, so trigger-started scenarios do without both)
 			spec["crashPoint"], spec["crashAt"] = g.Pick(points), g.Range(1, 3)
 		}
-		if g.P(0.15) {
+		if g.P(0.15) && !viaTrigger {
 			sc.Ops = append(sc.Ops, Op{K: "restart"})
 		}
 		sc.Ops = append(sc.Ops, Op{K: "run", S: "job1", DS: runType, M: spec})
 		if len(spec) > 0 {
 			// a clean run after the faulty one must restore equality, and a further one adds nothing
 			next := runType
-			if g.P(0.4) || (spec["killPoint"] != nil && g.P(0.5)) {
+			if (g.P(0.4) || (spec["killPoint"] != nil && g.P(0.5))) && !viaTrigger {
 				next = "incremental"
 			}
 			sc.Ops = append(sc.Ops, Op{K: "run", S: "job1", DS: next, N: 1})
